@@ -24,19 +24,44 @@ def impl_raw(rule, op, x, y, int_dtype=False):
         return ("err", core.err_kind(e))
 
 
+KEEP = []     # (real result, canonical value when produced, description, operands + their snapshots)
+
+
 def impl_public(op, dep, x, y, bare=False, int_dtype=False):
     import warnings
     try:
         with warnings.catch_warnings():
             warnings.simplefilter("ignore")
             X, Y = pbx.stair(*x, int_dtype=int_dtype), pbx.stair(*y, int_dtype=int_dtype)
+            sx, sy = pbx.canon_pb(X), pbx.canon_pb(Y)
             if bare:
                 r = pbx.PYOPS[op](X, Y)
             else:
                 r = getattr(X, op)(Y, dependency=dep)
-        return pbx.canon_pb(r)
+        c = pbx.canon_pb(r)
+        if len(KEEP) < 400:
+            KEEP.append((r, c, (op, dep), (X, sx), (Y, sy)))
+        return c
     except BaseException as e:  # noqa
         return ("err", core.err_kind(e))
+
+
+def recheck_kept(ctx, prop):
+    """results produced earlier must still read the same (no shared work buffers / aliasing), operands unchanged"""
+    n = 0
+    for r, c0, (op, dep), (X, sx), (Y, sy) in KEEP:
+        n += 1
+        if pbx.canon_pb(r) != c0:
+            ctx.fail({"op": op, "dep": dep, "check": "sequence", "symptom": "result-changed-later"},
+                     {"op": op, "dep": dep, "when_produced": pbx.js(c0), "read_again_later": pbx.js(pbx.canon_pb(r))},
+                     f"the p-box returned by {op}/{dep} changed after later operations: results share memory")
+            break
+        if pbx.canon_pb(X) != sx or pbx.canon_pb(Y) != sy:
+            ctx.fail({"op": op, "dep": dep, "check": "sequence", "symptom": "operand-mutated"}, {"op": op, "dep": dep},
+                     f"an operand of {op}/{dep} was modified by the operation")
+            break
+    ctx.bump("results-reread-later", n)
+    KEEP.clear()
 
 
 # ---- oracle -------------------------------------------------------------------------
@@ -272,3 +297,4 @@ def run(ctx: core.Check):
                     ctx.fail({**feat, "check": "encloses-" + d, "symptom": "not-enclosed"}, {**case, "dep_result": pbx.js(dres), "step": k},
                              f"{op}: Frechet result does not enclose the result under dependency {d} at step {k}")
                     break
+    recheck_kept(ctx, "C02")
